@@ -15,7 +15,7 @@ macro "cnt_close" : tactic => `(tactic| exact ⟨rfl, rfl, rfl, rfl, rfl, rfl⟩
 theorem cnt_deletePart (s : St) (ph : Nat) : Cnt s (deletePart s ph).1 := by
   unfold deletePart; (repeat' split) <;> cnt_close
 theorem cnt_createPart (s : St) (a : Bool) : Cnt s (createPart s a).1 := by
-  unfold createPart; cnt_close
+  unfold createPart; simp only; split <;> cnt_close
 theorem cnt_deletePub (s : St) (via : Nat) (r : GroupRef) : Cnt s (deletePub s via r).1 := by
   unfold deletePub; (repeat' split) <;> cnt_close
 theorem cnt_deleteSub (s : St) (via : Nat) (r : GroupRef) : Cnt s (deleteSub s via r).1 := by
@@ -43,20 +43,19 @@ theorem cnt_instOp (s : St) (w : EndRef) (o : WOp) : Cnt s (instOp s w o).1 := b
 theorem cnt_probe (s : St) (b : Bool) : Cnt s (probe b s).1 := by
   unfold probe; split <;> cnt_close
 
-/-- what the debug profile guarantees: a counter never leaves its range, because the `+= 1` that would do it
-    panics instead (the worker dies with the counter still at the rail) -/
-def DBound (s : St) : Prop :=
-  s.profile = .debug → ∀ u, s.pubEver u ≤ 255 ∧ s.subEver u ≤ 255 ∧ s.topicEver u ≤ 65535 ∧ s.wEver u ≤ 65535 ∧
-    s.rEver u ≤ 65535
+/-- what the checked increments (fixes/D40) guarantee in every reachable state: no counter ever reaches the number
+    of values of its field, so `counter % 2^width = counter` -/
+def FBound (s : St) : Prop :=
+  s.nextPart ≤ 4294967295 ∧
+  ∀ u, s.pubEver u ≤ 255 ∧ s.subEver u ≤ 255 ∧ s.topicEver u ≤ 65535 ∧ s.wEver u ≤ 65535 ∧ s.rEver u ≤ 65535
 
-theorem DBound.of_cnt {s s' : St} (h : DBound s) (c : Cnt s s') : DBound s' := by
-  obtain ⟨c0, c1, c2, c3, c4, c5⟩ := c
-  intro hp u
-  rw [c0] at hp
+theorem FBound.of_cnt {s s' : St} (h : FBound s) (c : Cnt s s') (hn : s'.nextPart = s.nextPart) : FBound s' := by
+  obtain ⟨_, c1, c2, c3, c4, c5⟩ := c
+  refine ⟨by rw [hn]; exact h.1, fun u => ?_⟩
   rw [c1, c2, c3, c4, c5]
-  exact h hp u
+  exact h.2 u
 
-theorem overflows_false_lt {n w : Nat} (hw : 0 < w) (hn : n ≤ w - 1) (h : overflows n w = false) : n + 1 ≤ w - 1 := by
+theorem overflows_false_lt {n w : Nat} (hw : 0 < w) (hn : n ≤ w - 1) (h : ¬ (overflows n w = true)) : n + 1 ≤ w - 1 := by
   unfold overflows at h
   have : n % w = n := Nat.mod_eq_of_lt (by omega)
   rw [this] at h
@@ -68,44 +67,43 @@ theorem bump_le (m : Nat → Nat) (u : Nat) (b : Nat) (hall : ∀ v, m v ≤ b) 
   · exact hu
   · exact hall v
 
-theorem dbound_die {s : St} (h : DBound s) : DBound (die s).1 := h.of_cnt ⟨rfl, rfl, rfl, rfl, rfl, rfl⟩
+theorem fbound_createPart {s : St} (h : FBound s) (a : Bool) : FBound (createPart s a).1 := by
+  unfold createPart
+  simp only
+  split
+  · exact h
+  · rename_i hg
+    have := overflows_false_lt (w := U32) (by decide) (by have := h.1; unfold U32; omega) hg
+    exact ⟨by unfold U32 at this; simp only; omega, h.2⟩
 
-/-- the guard of every creation: `profile == debug && overflows n w` is false -/
-theorem guard_false {pr : Profile} {n w : Nat} (h : ¬ ((pr == Profile.debug && overflows n w) = true)) (hp : pr = .debug) :
-    overflows n w = false := by
-  subst hp
-  simpa using h
-
-theorem dbound_createPub {s : St} (h : DBound s) (ph : Nat) (a : Bool) : DBound (createPub s ph a).1 := by
+theorem fbound_createPub {s : St} (h : FBound s) (ph : Nat) (a : Bool) : FBound (createPub s ph a).1 := by
   unfold createPub
   split
   · exact h
   · rename_i p _
     simp only
     split
-    · exact dbound_die h
+    · exact h
     · rename_i hg
-      intro hp u
-      have hb := h hp
-      have := overflows_false_lt (w := U8) (by decide) (by have := (hb p.uid).1; unfold U8; omega) (guard_false hg hp)
-      refine ⟨bump_le _ _ _ (fun v => (hb v).1) (by unfold U8 at this; omega) u, (hb u).2⟩
+      have hb := h.2
+      have := overflows_false_lt (w := U8) (by decide) (by have := (hb p.uid).1; unfold U8; omega) hg
+      exact ⟨h.1, fun u => ⟨bump_le _ _ _ (fun v => (hb v).1) (by unfold U8 at this; omega) u, (hb u).2⟩⟩
 
-theorem dbound_createSub {s : St} (h : DBound s) (ph : Nat) (a : Bool) : DBound (createSub s ph a).1 := by
+theorem fbound_createSub {s : St} (h : FBound s) (ph : Nat) (a : Bool) : FBound (createSub s ph a).1 := by
   unfold createSub
   split
   · exact h
   · rename_i p _
     simp only
     split
-    · exact dbound_die h
+    · exact h
     · rename_i hg
-      intro hp u
-      have hb := h hp
-      have := overflows_false_lt (w := U8) (by decide) (by have := (hb p.uid).2.1; unfold U8; omega) (guard_false hg hp)
-      refine ⟨(hb u).1, bump_le _ _ _ (fun v => (hb v).2.1) (by unfold U8 at this; omega) u, (hb u).2.2⟩
+      have hb := h.2
+      have := overflows_false_lt (w := U8) (by decide) (by have := (hb p.uid).2.1; unfold U8; omega) hg
+      exact ⟨h.1, fun u => ⟨(hb u).1, bump_le _ _ _ (fun v => (hb v).2.1) (by unfold U8 at this; omega) u, (hb u).2.2⟩⟩
 
-theorem dbound_createTopic {s : St} (h : DBound s) (ph : Nat) (n : String) (k : Bool) :
-    DBound (createTopic s ph n k).1 := by
+theorem fbound_createTopic {s : St} (h : FBound s) (ph : Nat) (n : String) (k : Bool) :
+    FBound (createTopic s ph n k).1 := by
   unfold createTopic
   split
   · exact h
@@ -116,14 +114,13 @@ theorem dbound_createTopic {s : St} (h : DBound s) (ph : Nat) (n : String) (k : 
       · exact h
       · simp only
         split
-        · exact dbound_die h
+        · exact h
         · rename_i hg
-          intro hp u
-          have hb := h hp
-          have := overflows_false_lt (w := U16) (by decide) (by have := (hb p.uid).2.2.1; unfold U16; omega) (guard_false hg hp)
-          refine ⟨(hb u).1, (hb u).2.1, bump_le _ _ _ (fun v => (hb v).2.2.1) (by unfold U16 at this; omega) u, (hb u).2.2.2⟩
+          have hb := h.2
+          have := overflows_false_lt (w := U16) (by decide) (by have := (hb p.uid).2.2.1; unfold U16; omega) hg
+          exact ⟨h.1, fun u => ⟨(hb u).1, (hb u).2.1, bump_le _ _ _ (fun v => (hb v).2.2.1) (by unfold U16 at this; omega) u, (hb u).2.2.2⟩⟩
 
-theorem dbound_createCft {s : St} (h : DBound s) (r : TopicRef) (n : String) : DBound (createCft s r n).1 := by
+theorem fbound_createCft {s : St} (h : FBound s) (r : TopicRef) (n : String) : FBound (createCft s r n).1 := by
   unfold createCft
   split
   · exact h
@@ -132,15 +129,14 @@ theorem dbound_createCft {s : St} (h : DBound s) (r : TopicRef) (n : String) : D
     · exact h
     · simp only
       split
-      · exact dbound_die h
+      · exact h
       · rename_i hg
-        intro hp u
-        have hb := h hp
-        have := overflows_false_lt (w := U16) (by decide) (by have := (hb p.uid).2.2.1; unfold U16; omega) (guard_false hg hp)
-        refine ⟨(hb u).1, (hb u).2.1, bump_le _ _ _ (fun v => (hb v).2.2.1) (by unfold U16 at this; omega) u, (hb u).2.2.2⟩
+        have hb := h.2
+        have := overflows_false_lt (w := U16) (by decide) (by have := (hb p.uid).2.2.1; unfold U16; omega) hg
+        exact ⟨h.1, fun u => ⟨(hb u).1, (hb u).2.1, bump_le _ _ _ (fun v => (hb v).2.2.1) (by unfold U16 at this; omega) u, (hb u).2.2.2⟩⟩
 
-theorem dbound_createWriter {s : St} (h : DBound s) (r : GroupRef) (t : String) (m : Option Nat) (c : Bool) :
-    DBound (createWriter s r t m c).1 := by
+theorem fbound_createWriter {s : St} (h : FBound s) (r : GroupRef) (t : String) (m : Option Nat) (c : Bool) :
+    FBound (createWriter s r t m c).1 := by
   unfold createWriter
   split
   · exact h
@@ -151,19 +147,18 @@ theorem dbound_createWriter {s : St} (h : DBound s) (r : GroupRef) (t : String) 
       · exact h
       · simp only
         split
-        · exact dbound_die h
+        · exact h
         · rename_i hg
-          have key : DBound { s with wEver := bump s.wEver p.uid } := by
-            intro hp u
-            have hb := h hp
-            have := overflows_false_lt (w := U16) (by decide) (by have := (hb p.uid).2.2.2.1; unfold U16; omega) (guard_false hg hp)
-            exact ⟨(hb u).1, (hb u).2.1, (hb u).2.2.1, bump_le _ _ _ (fun v => (hb v).2.2.2.1) (by unfold U16 at this; omega) u, (hb u).2.2.2.2⟩
+          have key : FBound { s with wEver := setTo s.wEver p.uid (s.wEver p.uid + 1) } := by
+            have hb := h.2
+            have := overflows_false_lt (w := U16) (by decide) (by have := (hb p.uid).2.2.2.1; unfold U16; omega) hg
+            exact ⟨h.1, fun u => ⟨(hb u).1, (hb u).2.1, (hb u).2.2.1, bump_le _ _ _ (fun v => (hb v).2.2.2.1) (by unfold U16 at this; omega) u, (hb u).2.2.2.2⟩⟩
           split
           · exact key
-          · exact key.of_cnt ⟨rfl, rfl, rfl, rfl, rfl, rfl⟩
+          · exact key.of_cnt ⟨rfl, rfl, rfl, rfl, rfl, rfl⟩ rfl
 
-theorem dbound_createReader {s : St} (h : DBound s) (r : GroupRef) (t : String) (c : Bool) :
-    DBound (createReader s r t c).1 := by
+theorem fbound_createReader {s : St} (h : FBound s) (r : GroupRef) (t : String) (c : Bool) :
+    FBound (createReader s r t c).1 := by
   unfold createReader
   split
   · exact h
@@ -176,148 +171,77 @@ theorem dbound_createReader {s : St} (h : DBound s) (r : GroupRef) (t : String) 
       · split
         · exact h
         · split
-          · exact dbound_die h
+          · exact h
           · rename_i hg
-            intro hp u
-            have hb := h hp
-            have := overflows_false_lt (w := U16) (by decide) (by have := (hb p.uid).2.2.2.2; unfold U16; omega) (guard_false hg hp)
-            exact ⟨(hb u).1, (hb u).2.1, (hb u).2.2.1, (hb u).2.2.2.1, bump_le _ _ _ (fun v => (hb v).2.2.2.2) (by unfold U16 at this; omega) u⟩
+            have hb := h.2
+            have := overflows_false_lt (w := U16) (by decide) (by have := (hb p.uid).2.2.2.2; unfold U16; omega) hg
+            exact ⟨h.1, fun u => ⟨(hb u).1, (hb u).2.1, (hb u).2.2.1, (hb u).2.2.2.1, bump_le _ _ _ (fun v => (hb v).2.2.2.2) (by unfold U16 at this; omega) u⟩⟩
 
-/-! ### the profile never changes -/
+/-! ### the factory counter: which operations move it -/
 
-theorem prof_createPub (s : St) (ph : Nat) (a : Bool) : (createPub s ph a).1.profile = s.profile := by
-  unfold createPub
-  split
-  · rfl
-  · simp only
-    split <;> rfl
-theorem prof_createSub (s : St) (ph : Nat) (a : Bool) : (createSub s ph a).1.profile = s.profile := by
-  unfold createSub
-  split
-  · rfl
-  · simp only
-    split <;> rfl
-theorem prof_createTopic (s : St) (ph : Nat) (n : String) (k : Bool) : (createTopic s ph n k).1.profile = s.profile := by
-  unfold createTopic
-  split
-  · rfl
-  · split
-    · rfl
-    · split
-      · rfl
-      · simp only
-        split <;> rfl
-theorem prof_createCft (s : St) (r : TopicRef) (n : String) : (createCft s r n).1.profile = s.profile := by
-  unfold createCft
-  split
-  · rfl
-  · split
-    · rfl
-    · simp only
-      split <;> rfl
-theorem prof_createWriter (s : St) (r : GroupRef) (t : String) (m : Option Nat) (c : Bool) :
-    (createWriter s r t m c).1.profile = s.profile := by
-  unfold createWriter
-  split
-  · rfl
-  · split
-    · rfl
-    · split
-      · rfl
-      · simp only
-        split
-        · rfl
-        · split <;> rfl
-theorem prof_createReader (s : St) (r : GroupRef) (t : String) (c : Bool) :
-    (createReader s r t c).1.profile = s.profile := by
-  unfold createReader
-  split
-  · rfl
-  · simp only
-    split
-    · rfl
-    · split
-      · rfl
-      · split
-        · rfl
-        · split <;> rfl
-
-theorem prof_step (s : St) (op : Op) : (step s op).1.profile = s.profile := by
-  cases op with
-  | factoryQos a => rfl
-  | createPart a => exact (cnt_createPart s a).1
-  | deletePart ph => exact (cnt_deletePart s ph).1
-  | createPub ph a => exact prof_createPub s ph a
-  | deletePub via r => exact (cnt_deletePub s via r).1
-  | createSub ph a => exact prof_createSub s ph a
-  | deleteSub via r => exact (cnt_deleteSub s via r).1
-  | createTopic ph n k => exact prof_createTopic s ph n k
-  | deleteTopic via r => exact (cnt_deleteTopic s via r).1
-  | createCft r n => exact prof_createCft s r n
-  | deleteCft ph n => exact (cnt_deleteCft s ph n).1
-  | createWriter r t m c => exact prof_createWriter s r t m c
-  | deleteWriter via w => exact (cnt_deleteWriter s via w).1
-  | createReader r t c => exact prof_createReader s r t c
-  | deleteReader via w => exact (cnt_deleteReader s via w).1
-  | deleteContained ph => exact (cnt_deleteContained s ph).1
-  | enablePart ph => exact (cnt_enablePart s ph).1
-  | enableTopic r => exact (cnt_enableTopic s r).1
-  | enableWriter w => exact (cnt_enableWriter s w).1
-  | enableReader w => exact (cnt_enableReader s w).1
-  | probePart ph => exact (cnt_probe s _).1
-  | probePub r => exact (cnt_probe s _).1
-  | probeSub r => exact (cnt_probe s _).1
-  | probeTopic r => exact (cnt_probe s _).1
-  | probeWriter w => exact (cnt_probe s _).1
-  | probeReader w => exact (cnt_probe s _).1
-  | inst w o => exact (cnt_instOp s w o).1
-
-theorem prof_run (ops : List Op) : ∀ s : St, (run s ops).profile = s.profile := by
-  induction ops with
-  | nil => intro s; rfl
-  | cons op l ih =>
-    intro s
-    show (run (stepD s op).1 l).profile = s.profile
-    rw [ih]
-    unfold stepD
-    split
-    · rfl
-    · exact prof_step s op
+theorem np_deletePart (s : St) (ph : Nat) : (deletePart s ph).1.nextPart = s.nextPart := by
+  unfold deletePart; (repeat' split) <;> rfl
+theorem np_deletePub (s : St) (via : Nat) (r : GroupRef) : (deletePub s via r).1.nextPart = s.nextPart := by
+  unfold deletePub; (repeat' split) <;> rfl
+theorem np_deleteSub (s : St) (via : Nat) (r : GroupRef) : (deleteSub s via r).1.nextPart = s.nextPart := by
+  unfold deleteSub; (repeat' split) <;> rfl
+theorem np_deleteTopic (s : St) (via : Nat) (r : TopicRef) : (deleteTopic s via r).1.nextPart = s.nextPart := by
+  unfold deleteTopic; (repeat' split) <;> rfl
+theorem np_deleteCft (s : St) (ph : Nat) (n : String) : (deleteCft s ph n).1.nextPart = s.nextPart := by
+  unfold deleteCft; (repeat' split) <;> rfl
+theorem np_deleteWriter (s : St) (via : GroupRef) (w : EndRef) : (deleteWriter s via w).1.nextPart = s.nextPart := by
+  unfold deleteWriter; (repeat' split) <;> rfl
+theorem np_deleteReader (s : St) (via : GroupRef) (w : EndRef) : (deleteReader s via w).1.nextPart = s.nextPart := by
+  unfold deleteReader; (repeat' split) <;> rfl
+theorem np_deleteContained (s : St) (ph : Nat) : (deleteContained s ph).1.nextPart = s.nextPart := by
+  unfold deleteContained; (repeat' split) <;> rfl
+theorem np_enablePart (s : St) (ph : Nat) : (enablePart s ph).1.nextPart = s.nextPart := by
+  unfold enablePart; (repeat' split) <;> rfl
+theorem np_enableTopic (s : St) (r : TopicRef) : (enableTopic s r).1.nextPart = s.nextPart := by
+  unfold enableTopic; (repeat' split) <;> rfl
+theorem np_enableWriter (s : St) (w : EndRef) : (enableWriter s w).1.nextPart = s.nextPart := by
+  unfold enableWriter; (repeat' split) <;> rfl
+theorem np_enableReader (s : St) (w : EndRef) : (enableReader s w).1.nextPart = s.nextPart := by
+  unfold enableReader; (repeat' split) <;> rfl
+theorem np_instOp (s : St) (w : EndRef) (o : WOp) : (instOp s w o).1.nextPart = s.nextPart := by
+  unfold instOp die; (repeat' split) <;> rfl
+theorem np_probe (s : St) (b : Bool) : (probe b s).1.nextPart = s.nextPart := by
+  unfold probe; split <;> rfl
 
 /-! ### every reachable state is good -/
 
-def Good (s : St) : Prop := Inv s ∧ DBound s
+def Good (s : St) : Prop := Inv s ∧ FBound s
 
 theorem good_step {s : St} (h : Good s) (op : Op) : Good (step s op).1 := by
   obtain ⟨hi, hd⟩ := h
   cases op with
-  | factoryQos a => exact ⟨by frame_auto hi, hd.of_cnt ⟨rfl, rfl, rfl, rfl, rfl, rfl⟩⟩
-  | createPart a => exact ⟨inv_createPart hi a, hd.of_cnt (cnt_createPart s a)⟩
-  | deletePart ph => exact ⟨inv_deletePart hi ph, hd.of_cnt (cnt_deletePart s ph)⟩
-  | createPub ph a => exact ⟨inv_createPub hi ph a, dbound_createPub hd ph a⟩
-  | deletePub via r => exact ⟨inv_deletePub hi via r, hd.of_cnt (cnt_deletePub s via r)⟩
-  | createSub ph a => exact ⟨inv_createSub hi ph a, dbound_createSub hd ph a⟩
-  | deleteSub via r => exact ⟨inv_deleteSub hi via r, hd.of_cnt (cnt_deleteSub s via r)⟩
-  | createTopic ph n k => exact ⟨inv_createTopic hi ph n k, dbound_createTopic hd ph n k⟩
-  | deleteTopic via r => exact ⟨inv_deleteTopic hi via r, hd.of_cnt (cnt_deleteTopic s via r)⟩
-  | createCft r n => exact ⟨inv_createCft hi r n, dbound_createCft hd r n⟩
-  | deleteCft ph n => exact ⟨inv_deleteCft hi ph n, hd.of_cnt (cnt_deleteCft s ph n)⟩
-  | createWriter r t m c => exact ⟨inv_createWriter hi r t m c, dbound_createWriter hd r t m c⟩
-  | deleteWriter via w => exact ⟨inv_deleteWriter hi via w, hd.of_cnt (cnt_deleteWriter s via w)⟩
-  | createReader r t c => exact ⟨inv_createReader hi r t c, dbound_createReader hd r t c⟩
-  | deleteReader via w => exact ⟨inv_deleteReader hi via w, hd.of_cnt (cnt_deleteReader s via w)⟩
-  | deleteContained ph => exact ⟨inv_deleteContained hi ph, hd.of_cnt (cnt_deleteContained s ph)⟩
-  | enablePart ph => exact ⟨inv_enablePart hi ph, hd.of_cnt (cnt_enablePart s ph)⟩
-  | enableTopic r => exact ⟨inv_enableTopic hi r, hd.of_cnt (cnt_enableTopic s r)⟩
-  | enableWriter w => exact ⟨inv_enableWriter hi w, hd.of_cnt (cnt_enableWriter s w)⟩
-  | enableReader w => exact ⟨inv_enableReader hi w, hd.of_cnt (cnt_enableReader s w)⟩
-  | probePart ph => exact ⟨inv_probe hi _, hd.of_cnt (cnt_probe s _)⟩
-  | probePub r => exact ⟨inv_probe hi _, hd.of_cnt (cnt_probe s _)⟩
-  | probeSub r => exact ⟨inv_probe hi _, hd.of_cnt (cnt_probe s _)⟩
-  | probeTopic r => exact ⟨inv_probe hi _, hd.of_cnt (cnt_probe s _)⟩
-  | probeWriter w => exact ⟨inv_probe hi _, hd.of_cnt (cnt_probe s _)⟩
-  | probeReader w => exact ⟨inv_probe hi _, hd.of_cnt (cnt_probe s _)⟩
-  | inst w o => exact ⟨inv_instOp hi w o, hd.of_cnt (cnt_instOp s w o)⟩
+  | factoryQos a => exact ⟨by frame_auto hi, hd.of_cnt ⟨rfl, rfl, rfl, rfl, rfl, rfl⟩ rfl⟩
+  | createPart a => exact ⟨inv_createPart hi a, fbound_createPart hd a⟩
+  | deletePart ph => exact ⟨inv_deletePart hi ph, hd.of_cnt (cnt_deletePart s ph) (np_deletePart s ph)⟩
+  | createPub ph a => exact ⟨inv_createPub hi ph a, fbound_createPub hd ph a⟩
+  | deletePub via r => exact ⟨inv_deletePub hi via r, hd.of_cnt (cnt_deletePub s via r) (np_deletePub s via r)⟩
+  | createSub ph a => exact ⟨inv_createSub hi ph a, fbound_createSub hd ph a⟩
+  | deleteSub via r => exact ⟨inv_deleteSub hi via r, hd.of_cnt (cnt_deleteSub s via r) (np_deleteSub s via r)⟩
+  | createTopic ph n k => exact ⟨inv_createTopic hi ph n k, fbound_createTopic hd ph n k⟩
+  | deleteTopic via r => exact ⟨inv_deleteTopic hi via r, hd.of_cnt (cnt_deleteTopic s via r) (np_deleteTopic s via r)⟩
+  | createCft r n => exact ⟨inv_createCft hi r n, fbound_createCft hd r n⟩
+  | deleteCft ph n => exact ⟨inv_deleteCft hi ph n, hd.of_cnt (cnt_deleteCft s ph n) (np_deleteCft s ph n)⟩
+  | createWriter r t m c => exact ⟨inv_createWriter hi r t m c, fbound_createWriter hd r t m c⟩
+  | deleteWriter via w => exact ⟨inv_deleteWriter hi via w, hd.of_cnt (cnt_deleteWriter s via w) (np_deleteWriter s via w)⟩
+  | createReader r t c => exact ⟨inv_createReader hi r t c, fbound_createReader hd r t c⟩
+  | deleteReader via w => exact ⟨inv_deleteReader hi via w, hd.of_cnt (cnt_deleteReader s via w) (np_deleteReader s via w)⟩
+  | deleteContained ph => exact ⟨inv_deleteContained hi ph, hd.of_cnt (cnt_deleteContained s ph) (np_deleteContained s ph)⟩
+  | enablePart ph => exact ⟨inv_enablePart hi ph, hd.of_cnt (cnt_enablePart s ph) (np_enablePart s ph)⟩
+  | enableTopic r => exact ⟨inv_enableTopic hi r, hd.of_cnt (cnt_enableTopic s r) (np_enableTopic s r)⟩
+  | enableWriter w => exact ⟨inv_enableWriter hi w, hd.of_cnt (cnt_enableWriter s w) (np_enableWriter s w)⟩
+  | enableReader w => exact ⟨inv_enableReader hi w, hd.of_cnt (cnt_enableReader s w) (np_enableReader s w)⟩
+  | probePart ph => exact ⟨inv_probe hi _, hd.of_cnt (cnt_probe s _) (np_probe s _)⟩
+  | probePub r => exact ⟨inv_probe hi _, hd.of_cnt (cnt_probe s _) (np_probe s _)⟩
+  | probeSub r => exact ⟨inv_probe hi _, hd.of_cnt (cnt_probe s _) (np_probe s _)⟩
+  | probeTopic r => exact ⟨inv_probe hi _, hd.of_cnt (cnt_probe s _) (np_probe s _)⟩
+  | probeWriter w => exact ⟨inv_probe hi _, hd.of_cnt (cnt_probe s _) (np_probe s _)⟩
+  | probeReader w => exact ⟨inv_probe hi _, hd.of_cnt (cnt_probe s _) (np_probe s _)⟩
+  | inst w o => exact ⟨inv_instOp hi w o, hd.of_cnt (cnt_instOp s w o) (np_instOp s w o)⟩
 
 theorem good_stepD {s : St} (h : Good s) (op : Op) : Good (stepD s op).1 := by
   unfold stepD; split
@@ -330,8 +254,7 @@ theorem good_run {s : St} (h : Good s) (ops : List Op) : Good (run s ops) := by
   | cons op ops ih => exact ih (good_stepD h op)
 
 theorem good_init (pr : Profile) : Good (St.init pr) :=
-  ⟨inv_init pr, by intro _ u; simp [St.init, zeroMap]⟩
-
+  ⟨inv_init pr, by simp [St.init], by intro u; simp [St.init, zeroMap]⟩
 
 /-! ### from serial numbers to handles -/
 
@@ -340,9 +263,9 @@ def Bounded (s : St) : Prop :=
   s.nextPart ≤ U32 ∧ ∀ u, s.pubEver u ≤ U8 ∧ s.subEver u ≤ U8 ∧ s.topicEver u ≤ U16 ∧ s.wEver u ≤ U16 ∧
     s.rEver u ≤ U16
 
-theorem DBound.bounded {s : St} (h : DBound s) (hp : s.profile = .debug) (hn : s.nextPart ≤ U32) : Bounded s := by
-  refine ⟨hn, fun u => ?_⟩
-  have := h hp u
+theorem FBound.bounded {s : St} (h : FBound s) : Bounded s := by
+  refine ⟨by have := h.1; unfold U32; omega, fun u => ?_⟩
+  have := h.2 u
   unfold U8 U16
   omega
 
